@@ -38,7 +38,7 @@ from mc.core.report import digest
 logging.getLogger('falcon').setLevel(100)
 
 OPS = ['accept', 'accept_sub', 'accept_hdr', 'accept_proto', 'close', 'close3001', 'close999', 'close1005', 'send_text', 'send_data', 'send_data_buf',
-       'send_media', 'send_media_bin', 'send_text_bytes', 'recv_text', 'recv_data', 'recv_media', 'raise403', 'raise_status', 'raise_value']
+       'send_media', 'send_media_bin', 'send_text_bytes', 'send_text_int', 'recv_text', 'recv_data', 'recv_media', 'raise403', 'raise_status', 'raise_value']
 CORE_OPS = ['accept', 'close', 'close999', 'send_text', 'send_media', 'recv_text', 'recv_data', 'raise403', 'raise_value']
 TERMINAL = {'raise403', 'raise_status', 'raise_value'}
 DOCUMENTED = {'OperationNotAllowed', 'WebSocketDisconnected', 'PayloadTypeError', 'TypeError', 'ValueError', 'OSError',
@@ -213,7 +213,7 @@ class Model:
         if name.startswith('send'):
             if st == 'hs':
                 return {('exc', 'OperationNotAllowed')}
-            if name == 'send_text_bytes':
+            if name in ('send_text_bytes', 'send_text_int'):
                 if st == 'closed' or self.client_seen_gone:
                     return {('exc', 'WebSocketDisconnected')}
                 if gone:
@@ -376,6 +376,8 @@ async def run_script(ws, holder):
                 r = await ws.send_media(MEDIA_OBJ, falcon.WebSocketPayloadType.BINARY)
             elif name == 'send_text_bytes':
                 r = await ws.send_text(b'x')
+            elif name == 'send_text_int':
+                r = await ws.send_text(42)          # neither str nor bytes-like: the documented TypeError all the same
             elif name == 'recv_text':
                 r = await ws.receive_text()
             elif name == 'recv_data':
